@@ -24,7 +24,7 @@ Print Assumptions C03_reply_consumes_id.
 (* the repaired RecvMsg returns a message only while the context's request is the one it waited for *)
 Theorem C03_recv_returns_current : forall s t c id e b,
   In (ORet t (RMsg [] b)) (out (recv_finish true s t c id e)) -> ~ In (ORet t (RMsg [] b)) (out s) ->
-  exists x, aget c (ctxs s) = Some x /\ c_reqID x = id /\ c_repMsg x = Some b.
+  exists x i, aget c (ctxs s) = Some x /\ c_reqID x = id /\ c_repMsg x = Some (i, b).
 Proof. exact recv_finish_current. Qed.
 Print Assumptions C03_recv_returns_current.
 
